@@ -229,6 +229,11 @@ var Features = []Feature{
 		t := d.Table("t")
 		t.Cols = append(t.Cols, Col{Name: "hx2", Type: "integer", Gen: "id + 7"}, Col{Name: "hx", Type: "integer", Gen: "id + 9"})
 	}},
+	// two generated columns; the later one's name, read as a regular expression, matches the earlier one's.
+	{Name: "col_gen_name_with_pattern_characters", Apply: func(d *DB) {
+		t := d.Table("t")
+		t.Cols = append(t.Cols, Col{Name: "hzc", Type: "integer", Gen: "id + 3"}, Col{Name: "h.c", Type: "integer", Gen: "id + 100"}, Col{Name: "tot$", Type: "integer", Gen: "id + 5"})
+	}},
 	{Name: "a_type_text", Group: "a", Apply: func(d *DB) { d.Table("t").Col("a").Type = "text" }},
 	{Name: "a_notnull", Group: "a", Apply: func(d *DB) { d.Table("t").Col("a").NotNull = true }},
 	{Name: "a_notnull_default", Group: "a", Apply: func(d *DB) { c := d.Table("t").Col("a"); c.NotNull = true; c.Default = "7" }},
